@@ -6,7 +6,7 @@ using namespace vh;
 #ifndef VH_STEPS
 #define VH_STEPS 1
 #endif
-#define N_OPS 34
+#define N_OPS 39
 
 static void mutate(World &w, uint32_t op) {
     double x = nixsym_f64("x");          // symbolic payload where a value is needed
@@ -45,7 +45,34 @@ static void mutate(World &w, uint32_t op) {
     case 31: w.df.rows(3); w.df.writeCell(2, 2, Variant(x)); break;
     case 32: w.b.deleteDataFrame("df"); break;
     case 33: w.b.createTag("nt", "t", {x, 2.0}).units({"ms", "mV"}); break;
+    // the same entity through two handles obtained by different routes, both already used ("warm"), mutated alternately
+    case 34: { DataArray h2 = w.tag.getReference((size_t)0); h2.dimensionCount(); w.da1.dimensionCount(); h2.deleteDimensions(); w.da1.appendSampledDimension(0.25, "time", "ms"); break; }
+    case 35: { DataArray h2 = w.grp.getDataArray((size_t)0); h2.dimensionCount(); w.da1.dimensionCount(); w.da1.deleteDimensions(); h2.appendSetDimension({"a", "b"}); w.da1.appendSetDimension(); break; }
+    case 36: { Source h2 = w.b.getSource("src"); h2.sourceCount(); w.src.sourceCount(); w.src.deleteSource("child"); w.src.deleteSource("child2"); h2.createSource("c3", "t"); break; }
+    case 37: { Section h2 = w.f.getSection("sec"); h2.propertyCount(); w.sec.propertyCount(); w.sec.deleteProperty("temperature"); h2.createProperty("q", Variant((int32_t)5)); h2.deleteSection("child"); w.sec.createSection("c4", "t"); break; }
+    case 38: { Tag h2 = w.grp.getTag((size_t)0); h2.featureCount(); h2.referenceCount(); w.tag.deleteFeature(w.tfeat); w.tag.removeReference(w.da1); h2.createFeature(w.da2, LinkType::Indexed); h2.addReference(w.da2); break; }
     }
+}
+
+// every handle held since the file was built must show the same entity as a handle fetched now
+static void coherent(World &w) {
+    ObsOpt opt;
+    Block fb = w.f.getBlock("blk");
+    if (!fb) return;
+#define VH_COH(held, freshexpr, obsfn, what) { auto fresh = freshexpr; if (fresh) { Obs a, b2; bool t1 = false, t2 = false; \
+        try { obsfn(a, held, opt); } catch (const std::exception &) { t1 = true; } try { obsfn(b2, fresh, opt); } catch (const std::exception &) { t2 = true; } \
+        nixsym_assert(t1 == t2 && a.s == b2.s, "a handle obtained earlier and a handle fetched now disagree about " what); } }
+    VH_COH(w.da1, fb.getDataArray("da1"), obs_data_array, "the data array");
+    VH_COH(w.da2, fb.getDataArray("da2"), obs_data_array, "the data array");
+    VH_COH(w.tag, fb.getTag("tag"), obs_tag, "the tag");
+    VH_COH(w.mtag, fb.getMultiTag("mtag"), obs_multi_tag, "the multi tag");
+    VH_COH(w.grp, fb.getGroup("grp"), obs_group, "the group");
+    { Source fresh = fb.getSource("src"); if (fresh) { Obs a, b2; bool t1 = false, t2 = false;
+        try { obs_source(a, w.src, opt, 0); } catch (const std::exception &) { t1 = true; } try { obs_source(b2, fresh, opt, 0); } catch (const std::exception &) { t2 = true; }
+        nixsym_assert(t1 == t2 && a.s == b2.s, "a handle obtained earlier and a handle fetched now disagree about the source"); } }
+    { Section fresh = w.f.getSection("sec"); if (fresh) { Obs a, b2; bool t1 = false, t2 = false;
+        try { obs_section(a, w.sec, opt, 0); } catch (const std::exception &) { t1 = true; } try { obs_section(b2, fresh, opt, 0); } catch (const std::exception &) { t2 = true; }
+        nixsym_assert(t1 == t2 && a.s == b2.s, "a handle obtained earlier and a handle fetched now disagree about the section"); } }
 }
 
 static void run(bool reopen_rw) {
@@ -62,6 +89,7 @@ static void run(bool reopen_rw) {
         }
     }
     w.f.flush();
+    coherent(w);
     std::string before = observe(w.f);
     drop_handles(w);
     w.f.close();
